@@ -235,11 +235,16 @@ def run(tier):
                 arg = ctx.rnd.choice(sets)
             if kind in ("exit_ok", "exit_err", "exit_base") and not cms:
                 kind = "enter"
+            # the configuration is handed over in different shapes of "iterable of names": a list, a set, a tuple, and
+            # one-shot iterables (an iterator, a generator expression, a map object)
+            shape = ctx.rnd.choice(["list", "set", "tuple", "iter", "gen", "map"])
+            given = {"list": lambda a: list(a), "set": lambda a: set(a), "tuple": lambda a: tuple(a), "iter": lambda a: iter(list(a)),
+                     "gen": lambda a: (x for x in list(a)), "map": lambda a: map(str, list(a))}[shape](arg)
             try:
                 if kind == "set":
-                    setter(arg)
+                    setter(given)
                 elif kind == "enter":
-                    cm = ignore_fields_for_comparison(arg)
+                    cm = ignore_fields_for_comparison(given)
                     cm.__enter__()
                     cms.append(cm)
                 elif kind == "exit_ok":
